@@ -127,7 +127,9 @@ pub struct Cfg {
 // "b\\c": a backslash is an ordinary character of a name here, not a separator
 const NAMES: &[&str] = &["a", "Sub", "S2", "x y", "名", ".hid", "d.e", "m", "@E", "e_f", "tr ", " ld", "b\\c"];
 // "m.bin" / "Sub.txt": siblings of the directories "m" / "Sub" that sort before "m/..." byte-wise ('.' < '/')
-const FILES: &[&str] = &["one.bin", "two.txt", "f.bin.lz", "g.cmp", "h.cms", "q.bin", "t.txt.lz", "データ.bin", "e_one.bin", "noext", "m.bin", "Sub.txt", "w\\e.bin"];
+const FILES: &[&str] = &["one.bin", "two.txt", "f.bin.lz", "g.cmp", "h.cms", "q.bin", "t.txt.lz", "データ.bin", "e_one.bin", "noext", "m.bin", "Sub.txt", "w\\e.bin",
+    // round 8: a compression suffix that is not the last extension (plain file), and names that differ from the patterns' literals only in case
+    "k.lz.bak", "c.cms.old", "TWO.TXT", "Q.Bin"];
 const PATTERNS: &[Option<&str>] = &[None, Some("*"), Some("*.bin"), Some("*/*"), Some("**/*.txt"), Some("**/*.bin.lz"), Some("S*/*"), Some("?.bin")];
 
 fn gen_cfg(prop: &str, tier: Tier, run_seed: u64) -> Value {
